@@ -1355,7 +1355,7 @@ pub const ALLOWED: &[(&str, usize, &str, &str)] = &[
     ("src/simulator/dst_integration.rs|ZipfianGenerator::new|platform-libm|powf", 1, "inert", "powf(k, skew): platform libm, identical in every process on one platform; the redis-dst model takes the sampler`s step function from the real code"),
     ("src/simulator/multi_node.rs|MultiNodeSimulation::count_gossip_messages|hash-iteration|routing_table.values", 1, "commutative", "sum of the lengths"),
     ("src/simulator/multi_node.rs|MultiNodeSimulation::gossip_round|hash-iteration|routing_table.into_iter", 1, "sorted", "targets sorted by id since 7f8c4c6 (defect B2): send_deltas draws per target"),
-    ("src/simulator/multi_node.rs|SimulatedNode::get_all_deltas|hash-iteration|replicated_keys.iter", 1, "known-finding", "returns the node`s deltas in HashMap order: a public final-state accessor of MultiNodeSimulation whose result differs between processes (no caller in the tree); dynamic oracle: C20:accessor-in-map-order:multi-node:get_all_deltas (known_findings.json), fix prepared on fixes-sim-s3 (sort by key)"),
+    ("src/simulator/multi_node.rs|SimulatedNode::get_all_deltas|hash-iteration|replicated_keys.iter", 1, "sorted", "sorted by key since 1d6e2a2 (was C20:accessor-in-map-order:multi-node-api:get_all_deltas); model: getAllDeltas true, accessor_sorted_order_independent"),
     ("src/streaming/clock.rs|ProductionClock::new|wall-clock|Instant::now", 1, "production", "the default clock of StreamingPersistence::new; the DST harnesses drive WriteBuffer / Compactor / RecoveryManager with Lamport times they generate"),
     ("src/streaming/clock.rs|ProductionClock::new|wall-clock|SystemTime::now", 1, "production", "the default clock of StreamingPersistence::new; the DST harnesses drive WriteBuffer / Compactor / RecoveryManager with Lamport times they generate"),
     ("src/streaming/clock.rs|ProductionClock::now|wall-clock|elapsed", 1, "production", "the default clock of StreamingPersistence::new; the DST harnesses drive WriteBuffer / Compactor / RecoveryManager with Lamport times they generate"),
@@ -1412,6 +1412,7 @@ pub const ALLOWED: &[(&str, usize, &str, &str)] = &[
 pub const REQUIRED: &[(&str, &str, &str, &str)] = &[
     // (file, function, token sequence that must occur in its body, why)
     ("src/simulator/dst.rs", "DSTSimulation::with_config", "buggify : : set_config (", "DSTSimulation installs the fault configuration it was given"),
+    ("src/simulator/dst.rs", "DSTSimulation::with_config", "buggify : : reset_stats (", "the statistics copied into SimulationResult start at zero (c6be241)"),
     ("src/simulator/dst.rs", "DSTSimulation::with_faults", "buggify : : set_config (", "with_faults re-installs"),
     ("src/streaming/wal_dst.rs", "WalDSTHarness::run", "set_config (", "store faults go through should_buggify_with_prob: own context (474577c)"),
     ("src/streaming/dst.rs", "StreamingDSTHarness::new", "set_config (", "own context (474577c)"),
